@@ -10,6 +10,12 @@ Driver for C20: the executable model of /repo/bin (TdModel.Model.Bin), one reque
   consume <id> <hex>        → ok <resthex> | err <tag> | panic              (ConsumeID)
   getn <n> <hex>            → ok <hex> <resthex> | err <tag> | panic        (ConsumeN into a buffer of n bytes)
 
+  fields <f> <op>…          → one result per op: has:<n> → 0|1, set:<n> / unset:<n> → new word, zero → 0|1, enc → hex
+  fdec <hex>                → ok <word> <resthex> | err <tag>               (Fields.Decode)
+  buf <hex> <op>…           → one result per op on a Buffer holding <hex>: resetn:<n> expand:<n> skip:<n>
+                              put:<hex> reset poolget poolsize:<n> → =<state>; read:<k> → <chunk>:<eof>;
+                              copy → <hex>; len → <n>; a Go panic ends the line with `panic`
+
 kinds: u32 id i32 u64 i64 i53 f64 bool i128 i256 bytes str vec
 -/
 import TdModel.Model.C20
@@ -119,6 +125,47 @@ def decSeq : List String → Bytes → List String → Option String
     | some (.err e) => some (" ".intercalate (acc.reverse ++ ["err", e.tag]))
     | some .panic => some (" ".intercalate (acc.reverse ++ ["panic"]))
 
+def fieldsOps : Nat → List String → List String → String
+  | _, [], acc => " ".intercalate acc.reverse
+  | f, op :: rest, acc =>
+    match op.splitOn ":" with
+    | ["has", n] => match n.toNat? with
+      | some n => fieldsOps f rest ((if fieldsHas f n then "1" else "0") :: acc)
+      | none => "bad-op"
+    | ["set", n] => match n.toNat? with
+      | some n => fieldsOps (fieldsSet f n) rest (toString (fieldsSet f n) :: acc)
+      | none => "bad-op"
+    | ["unset", n] => match n.toNat? with
+      | some n => fieldsOps (fieldsUnset f n) rest (toString (fieldsUnset f n) :: acc)
+      | none => "bad-op"
+    | ["zero"] => fieldsOps f rest ((if fieldsZero f then "1" else "0") :: acc)
+    | ["enc"] => fieldsOps f rest (toHexFast (putFields f) :: acc)
+    | _ => "bad-op"
+
+def bufOps : Bytes → List String → List String → String
+  | _, [], acc => " ".intercalate acc.reverse
+  | b, op :: rest, acc =>
+    let fin (o : Out Bytes) : String :=
+      match o with
+      | .ok b' => bufOps b' rest (("=" ++ toHexFast b') :: acc)
+      | _ => " ".intercalate (("panic" :: acc).reverse)
+    match op.splitOn ":" with
+    | ["resetn", n] => match n.toInt? with | some n => fin (bufResetN n) | none => "bad-op"
+    | ["expand", n] => match n.toInt? with | some n => fin (bufExpand b n) | none => "bad-op"
+    | ["skip", n] => match n.toNat? with | some n => fin (bufSkip b n) | none => "bad-op"
+    | ["put", h] => match ofHexFast h with | some r => fin (.ok (bufPut b r)) | none => "bad-op"
+    | ["reset"] => fin (.ok [])
+    | ["poolget"] => fin (.ok (poolGet b))
+    | ["poolsize", n] => match n.toInt? with | some n => fin (poolGetSize b n) | none => "bad-op"
+    | ["read", k] => match k.toNat? with
+      | some k =>
+        let (c, eof, r) := bufRead b k
+        bufOps r rest ((toHexFast c ++ ":" ++ (if eof then "1" else "0")) :: acc)
+      | none => "bad-op"
+    | ["copy"] => bufOps b rest (toHexFast b :: acc)
+    | ["len"] => bufOps b rest (toString b.length :: acc)
+    | _ => "bad-op"
+
 def handle (line : String) : String :=
   match words line with
   | ["enc", k, v] => match encKind k v with
@@ -147,6 +194,17 @@ def handle (line : String) : String :=
   | ["getn", n, h] => match n.toNat?, ofHexFast h with
     | some n, some b => showOut (getNP n b) toHexFast
     | _, _ => "bad-op"
+  | "fields" :: f :: ops => match f.toNat? with
+    | some f => fieldsOps f ops []
+    | none => "bad-op"
+  | ["fdec", h] => match ofHexFast h with
+    | some b => match getFields b with
+      | .ok (f, r) => s!"ok {f} {toHexFast r}"
+      | .error e => "err " ++ e.tag
+    | none => "bad-op"
+  | "buf" :: h :: ops => match ofHexFast h with
+    | some b => bufOps b ops []
+    | none => "bad-op"
   | ["hdr", l] => match l.toNat? with
     | some n =>
       let hd := bytesHeader n
